@@ -8,7 +8,7 @@
 (* A scenario `sc` is                                                      *)
 (*   [id, fs0 (sequence of entries), sources (sequence of args), dest(arg),*)
 (*    r, T, n, L (flags: recursive, no-target-directory, no-clobber,       *)
-(*    dereference), bad (rejected by option/glob parsing)]                                                        *)
+(*    dereference), bk (backup mode), bad (rejected by option/glob parsing)]                                                        *)
 (* where an arg is [norm |-> Rust's components() of the spelling,          *)
 (* trail |-> written with a trailing slash].                               *)
 (*                                                                         *)
@@ -113,6 +113,14 @@ Target(sc, v) == v.to
 
 Special(k) == k \in {"fifo", "sock", "chr"}
 
+\* needs_backup (libxcp/src/backup.rs): the destination exists (following links) and the mode asks for it;
+\* "auto" = only when a numbered backup of that name is already in its directory
+NeedsBackupNS(fs, sc, to) ==
+  /\ sc.bk # "none" /\ ExistsF(fs, to)
+  /\ LET ql == Resolve(fs, to, FALSE) IN
+     /\ ~IsErr(ql) /\ ql # <<>> /\ Has(fs, ql)
+     /\ sc.bk = "numbered" \/ BackupNums(fs, Front(ql), Last(ql)) # {}
+
 (***************************************************************************)
 (* One worker operation applied to a state: [ok, fs].                      *)
 (***************************************************************************)
@@ -120,6 +128,8 @@ ExecOp(fs, sc, v) ==
   LET to == Target(sc, v) IN
   CASE v.k = "file" ->
          IF SameFile(fs, v.from, to) /\ "NoIdentityCheck" \notin Deviations THEN Fail(fs)   \* identity check in CopyHandle::new
+         ELSE IF NeedsBackupNS(fs, sc, to)
+           THEN LET b == BackupRename(fs, to) IN IF b.ok THEN CreateFile(b.fs, to, v.c) ELSE b    \* rename, then create
          ELSE CreateFile(fs, to, v.c)
     [] v.k = "link" -> Symlink(fs, to, v.c, v.lt)
     [] Special(v.k) ->
